@@ -360,5 +360,41 @@ func run(r *mon.Run) {
 			}
 		}
 	}
-	_ = version.VersionB1
+	// every status 100..999 once, each with a body and a header, in both versions
+	for vi, ver := range []version.Version{version.VersionB1, version.VersionB2} {
+		if !r.Mine(vi) {
+			continue
+		}
+		b := &bundle.Bundle{Version: ver}
+		for st := 100; st <= 999; st++ {
+			u, _ := url.Parse(fmt.Sprintf("https://example.com/status/%d", st))
+			b.Exchanges = append(b.Exchanges, &bundle.Exchange{Request: bundle.Request{URL: u, Header: http.Header{}}, Response: bundle.Response{Status: st, Header: http.Header{"X-Status": {fmt.Sprint(st)}}, Body: []byte(fmt.Sprintf("payload for status %d", st))}})
+		}
+		if ver == version.VersionB1 {
+			b.PrimaryURL = b.Exchanges[0].Request.URL
+		}
+		problem := ""
+		w1, err, _ := write(r, "write/status-sweep", b)
+		if err != nil {
+			problem = "writer refused: " + err.Error()
+		} else if r1, err := read(r, "read/status-sweep", w1); err != nil {
+			problem = "reader rejects the writer's output: " + err.Error()
+		} else {
+			problem = diffGroups(expected(b, nil), groupImpl(r1))
+			if problem == "" {
+				if ref, rerr := rbundle.Extract(w1); rerr != nil {
+					problem = "independent reader: " + rerr.Error()
+				} else {
+					problem = diffGroups(expected(b, nil), groupRef(ref))
+				}
+			}
+		}
+		if problem != "" {
+			r.Eval("STATUS-SWEEP-MISMATCH")
+			r.Violation(fmt.Sprintf("rt:status-sweep:%s", ver), fmt.Sprintf("bundle with one exchange per status 100..999 (%s): %s", ver, problem), nil)
+		} else {
+			r.EvalN("status-sweep-ok", 900)
+		}
+		r.Distinct("status-sweep|" + string(ver))
+	}
 }
